@@ -37,6 +37,8 @@ def requester_events(run, conn=None, client=None):
     evs = []
     tok2id = {}
     outcomes = {}
+    pending_attempt = None
+    min_backoff_ns = (run.get("params") or {}).get("backoff_min_ns", 0) or 0
     for e in run["events"]:
         p, c, a = e["p"], e["c"], e["a"] or []
         if c == client:
@@ -91,10 +93,19 @@ def requester_events(run, conn=None, client=None):
             elif p == "redial.swap":
                 evs.append("RedialSwap")
             elif p == "loop.exit":
+                if pending_attempt is not None:
+                    evs.append("RedialAttempt %d" % pending_attempt[0])      # announced, no dial made before the exit
+                    pending_attempt = None
                 evs.append("LoopExit")
             elif p == "redial.attempt":
-                evs.append("RedialAttempt %d" % int(a[0]))
+                # the announcement counts as the model's RedialAttempt only if the backoff sleep it announces is then
+                # really observed: the dial that follows must come at least 0.8 x the configured minimum later
+                pending_attempt = (int(a[0]), e.get("t", 0))
             elif p == "redial.dialed":
+                if pending_attempt is not None:
+                    if e.get("t", 0) - pending_attempt[1] >= 0.8 * min_backoff_ns:
+                        evs.append("RedialAttempt %d" % pending_attempt[0])
+                    pending_attempt = None
                 evs.append("RedialDialed %s" % ("true" if a[0] else "false"))
         elif c == "harness" and p == "call.return":
             tok, out = a[0], a[1]
